@@ -365,3 +365,49 @@ def load_known():
 def exc_class(e):
     """canonical exception identity: the class name (never the message)"""
     return type(e).__name__
+
+
+FORBIDDEN = re.compile(r"\b(Admitted|admit|Axiom|Axioms|Parameter|Parameters|Conjecture|Hypothesis|Variable)\b|Unset Guard|bypass_check|type-in-type|impredicative-set|Admit Obligations")
+
+
+def grep_forbidden():
+    """Admitted/admit/Axiom/Parameter/Conjecture/... anywhere in the development (Variable/Hypothesis are
+    allowed inside a Section only). Returns a list of offending 'file:line: text'."""
+    bad = []
+    for root, _, files in os.walk(COQ):
+        for f in files:
+            if not f.endswith(".v"):
+                continue
+            depth = 0
+            path = os.path.join(root, f)
+            in_comment = 0
+            for i, line in enumerate(open(path, encoding="utf-8", errors="replace"), 1):
+                code = re.sub(r"\(\*.*?\*\)", "", line)
+                if "(*" in code and "*)" not in code:
+                    in_comment += 1
+                    code = code.split("(*")[0]
+                elif in_comment and "*)" in code:
+                    in_comment -= 1
+                    code = code.split("*)", 1)[1]
+                elif in_comment:
+                    continue
+                if re.match(r"\s*Section\b", code):
+                    depth += 1
+                if re.match(r"\s*End\b", code) and depth:
+                    depth -= 1
+                m = FORBIDDEN.search(code)
+                if m:
+                    word = m.group(0)
+                    if word in ("Variable", "Variables", "Hypothesis") and depth > 0:
+                        continue
+                    if word in ("Parameter", "Parameters") and ("MSDParameter" in line):
+                        continue
+                    bad.append("%s:%d: %s" % (os.path.relpath(path, VERIF), i, line.strip()[:120]))
+    return bad
+
+
+def coqchk(pid):
+    """independent re-check of the compiled property file and everything it depends on; returns (ok, axioms text)"""
+    rc, out = _run(["coqchk", "-silent", "-o", "-R", COQ, "SV", "SV.Properties." + pid], cwd=COQ, timeout=3000)
+    m = re.search(r"\* Axioms:(.*?)(?:\n\* |\Z)", out, re.S)
+    return rc == 0, (m.group(1).strip() if m else out[-1500:])
